@@ -551,7 +551,7 @@ func vreSchema2(t *testing.T, mockCtrl *gomock.Controller) *mockschemaclientboun
 
 // vreRun builds the tree of one transaction (stored intent marked for removal, new revision, running = stored) and
 // compares the renderings.
-func vreRun(t *testing.T, ctx context.Context, scb *mockschemaclientbound.MockSchemaClientBound, existing, revision []*sdcpb.Update, label string, report func(fn, clause, in, why string), nJ, nX, nP *int) {
+func vreRun(t *testing.T, ctx context.Context, scb *mockschemaclientbound.MockSchemaClientBound, existing, revision, others []*sdcpb.Update, label string, report func(fn, clause, in, why string), nJ, nX, nP *int) {
 	fnJ, fnX, fnP := "(*tree.sharedEntryAttributes).toJsonInternal", "(*tree.sharedEntryAttributes).toXmlInternal", "(*tree.RootEntry).ToProtoUpdates"
 	mockCtrl := gomock.NewController(t)
 	defer mockCtrl.Finish()
@@ -572,6 +572,10 @@ func vreRun(t *testing.T, ctx context.Context, scb *mockschemaclientbound.MockSc
 		t.Fatal(err)
 	}
 	if err := vreAdd(ctx, root, existing, fExisting, RunningIntentName, RunningValuesPrio); err != nil {
+		t.Fatal(err)
+	}
+	// what another, stronger intent holds
+	if err := vreAdd(ctx, root, others, fExisting, "other", 3); err != nil {
 		t.Fatal(err)
 	}
 	root.FinishInsertionPhase(ctx)
@@ -700,7 +704,33 @@ func TestVerifReplayEncodings(t *testing.T) {
 		if err != nil {
 			t.Fatal(err)
 		}
-		vreRun(t, ctx, scb, existing, revision, "edits="+strings.Join(names, "+"), report, &nJ, &nX, &nP)
+		vreRun(t, ctx, scb, existing, revision, nil, "edits="+strings.Join(names, "+"), report, &nJ, &nX, &nP)
+		mockCtrl.Finish()
+	}
+	// a stronger intent of another owner holds case1 of the choice: the case the revision switches to loses and is not configured
+	{
+		ctx := context.Background()
+		mockCtrl := gomock.NewController(t)
+		scb, err := testhelper.GetSchemaClientBound(t, mockCtrl)
+		if err != nil {
+			t.Fatal(err)
+		}
+		converter := utils.NewConverter(scb)
+		existing, err := vreExpand(ctx, vreBase(), converter)
+		if err != nil {
+			t.Fatal(err)
+		}
+		c := vreBase()
+		c.Choices = &sdcio_schema.SdcioModel_Choices{Case2: &sdcio_schema.SdcioModel_Choices_Case2{Log: ygot.Bool(true)}}
+		revision, err := vreExpand(ctx, c, converter)
+		if err != nil {
+			t.Fatal(err)
+		}
+		others, err := vreExpand(ctx, &sdcio_schema.Device{Choices: &sdcio_schema.SdcioModel_Choices{Case1: &sdcio_schema.SdcioModel_Choices_Case1{CaseElem: &sdcio_schema.SdcioModel_Choices_Case1_CaseElem{Elem: ygot.String("foocaseval")}}}}, converter)
+		if err != nil {
+			t.Fatal(err)
+		}
+		vreRun(t, ctx, scb, existing, revision, others, "edits=switch-choice-case,another stronger intent holds the former case", report, &nJ, &nX, &nP)
 		mockCtrl.Finish()
 	}
 	// a second schema, for shapes the test schema does not have: presence containers that hold nothing but a defaulted
@@ -749,7 +779,7 @@ func TestVerifReplayEncodings(t *testing.T) {
 				names = append(names, n)
 			}
 		}
-		vreRun(t, ctx, scb, mk(0), mk(mask), "schema=presence,edits="+strings.Join(names, "+"), report, &nJ, &nX, &nP)
+		vreRun(t, ctx, scb, mk(0), mk(mask), nil, "schema=presence,edits="+strings.Join(names, "+"), report, &nJ, &nX, &nP)
 		mockCtrl.Finish()
 	}
 	fmt.Printf("REPLAY-CASES fn=%s n=%d\n", fnJ, nJ)
